@@ -236,6 +236,20 @@ impl Pt {
             _ => None,
         }
     }
+    /// decoding WITHOUT the subgroup check (on-curve only) — for manufacturing Byzantine points
+    pub fn from_bytes_unchecked(b: &[u8]) -> Option<Pt> {
+        match b.len() {
+            48 => {
+                let a: [u8; 48] = b.try_into().ok()?;
+                Option::<G1Affine>::from(G1Affine::from_compressed_unchecked(&a)).map(|p| Pt::G1(p.into()))
+            }
+            96 => {
+                let a: [u8; 96] = b.try_into().ok()?;
+                Option::<G2Affine>::from(G2Affine::from_compressed_unchecked(&a)).map(|p| Pt::G2(p.into()))
+            }
+            _ => None,
+        }
+    }
     pub fn to_bytes(&self) -> Vec<u8> {
         match self {
             Pt::G1(p) => p.to_affine().to_compressed().to_vec(),
@@ -353,6 +367,20 @@ pub fn off_subgroup_point(len: usize, salt: u64) -> Vec<u8> {
         if classify_point(&b) == PointClass::OnCurveNotInSubgroup {
             return b;
         }
+    }
+}
+/// A non-identity point whose order divides the cofactor: T = r·Q for an on-curve Q outside the
+/// subgroup. Adding T to a valid signature gives different bytes that satisfy the same pairing equation.
+pub fn small_order_point(len: usize, salt: u64) -> Pt {
+    let mut s = salt;
+    loop {
+        let q = Pt::from_bytes_unchecked(&off_subgroup_point(len, s)).expect("on curve");
+        // r·Q = (r-1)·Q + Q
+        let t = q.mul(&(-Scalar::ONE)).add(&q);
+        if !t.is_identity() {
+            return t;
+        }
+        s = s.wrapping_add(1);
     }
 }
 /// An x-coordinate with no curve point (compressed form), deterministically from `salt`.
